@@ -47,6 +47,13 @@ def spelling_cases():
     add("expr_contra_float", "f64", "validate(greater_or_equal = KF * 2.0, less_or_equal = KF)", "reject_or_test")
     add("expr_contra_len", "String", "validate(len_char_min = UK + 3, len_char_max = UK)", "reject_or_test")
     add("expr_ok_int", "i32", "validate(greater = K - 10, less = K)", "accept")
+    # one bound a literal, the other an expression: the macro cannot compare them either (K = 5, KF = 5.5, UK = 5)
+    add("mixed_contra_int_expr_lo", "i32", "validate(greater_or_equal = K + 10, less_or_equal = 5)", "reject_or_test")
+    add("mixed_contra_int_expr_hi", "i32", "validate(greater = 10, less = K)", "reject_or_test")
+    add("mixed_contra_float", "f64", "validate(greater_or_equal = 7.5, less_or_equal = KF)", "reject_or_test")
+    add("mixed_contra_len", "String", "validate(len_char_min = 9, len_char_max = UK)", "reject_or_test")
+    add("mixed_ok_int", "i32", "validate(greater_or_equal = 1, less_or_equal = K)", "accept")
+    add("mixed_ok_float", "f64", "validate(greater_or_equal = 1.5, less_or_equal = KF)", "accept")
     add("default_invalid_lit", "i32", "validate(greater = 0), default = -1, derive(Default)", "reject_or_test")
     add("default_invalid_expr", "i32", "validate(less = K), default = K + 1, derive(Default)", "reject_or_test")
     add("default_invalid_float", "f64", "validate(finite, less = KF), default = KF, derive(Default)", "reject_or_test")
